@@ -9,7 +9,7 @@ reader/writer (python base64, urllib.parse, csv, xml.etree, tomllib, and small
 readers for .properties and Lua table literals written here) on generated
 ground truth, plus the real binary on a sample.
 """
-import base64, csv, io, json, os, re, urllib.parse
+import base64, csv, io, json, os, re, shutil, tempfile, urllib.parse
 import vlib
 
 sections = []
@@ -921,6 +921,15 @@ def gen_xml_text(rng):
     return s if s else "t"
 
 
+def interleave_elem(rng, e):
+    """same element tree with the children of every element shuffled, so that same-named siblings are separated by others
+    (a b a, a b b a, at every depth): the text then denotes the grouping by first occurrence"""
+    tag, attrs, text, kids = e
+    kids = [interleave_elem(rng, k) for k in kids]
+    rng.shuffle(kids)
+    return (tag, attrs, text, kids)
+
+
 def gen_elem(rng, depth=0, name=None):
     """(tag, [(attr, value)], text or None, [children]); same-named children adjacent; no mixed content"""
     tag = name or rng.choice(XML_NAMES)
@@ -1044,6 +1053,12 @@ def sec_xml(cx):
     texts = [(xml_write(e, rng, "", rng.random() < 0.7), e, pf) for e, pf in zip(elems, prefs)]
     decl = '<?xml version="1.0" encoding="UTF-8"?>\n'
     texts += [(decl + "<!-- c -->\n" + xml_write(e, rng), e, pf) for e, pf in list(zip(elems, prefs))[:: 10]]
+    # repeated names separated by other elements: decoded as one sequence at the place of the first occurrence
+    fixed = [("r", [], None, [("b", [], "1", []), ("c", [], "2", []), ("b", [], "3", [])]),
+             ("r", [], None, [("a", [], "1", []), ("b", [], "2", []), ("b", [], "3", []), ("a", [], "4", [])]),
+             ("r", [], None, [("a", [], None, [("x", [], "1", []), ("y", [], "2", []), ("x", [], "3", [])]), ("b", [], "2", []), ("a", [("k", "v")], "t", [])])]
+    inter = fixed + [interleave_elem(rng, e) for e in elems if len(e[3]) > 2]
+    texts += [(xml_write(e, rng, "", rng.random() < 0.7), e, ("+@", "+content")) for e in inter]
     resp = vlib.yqh_parallel([{"op": "c14_dec", "fmt": "xml", "xml_attr": ap, "xml_content": cn, "text_b64": vlib.b64e(t)} for t, e, (ap, cn) in texts])
     for (t, e, (ap, cn)), r in zip(texts, resp):
         rp = {"text": t, "text_b64": vlib.b64e(t), "elem": e, "attr_prefix": ap, "content_name": cn}
@@ -1940,6 +1955,125 @@ def _json_close(got, want):
 
 
 # --------------------------------------------------------------------------
+# decoder reuse: one decoder object serves every element of an expression and every file of a run
+# (decodeOperator calls Init per element, the stream evaluator per file): each input must decode as it does alone
+# --------------------------------------------------------------------------
+REUSE_OPS = {
+    "@base64d": {"valid": ["aGk=", "YQ", "YWJj", "eA==\n"], "invalid": ["a*b", "Y"]},
+    "@urid": {"valid": ["a+b", "%41%2F", "x", "100%25"], "invalid": ["%zz", "%4"]},
+    "from_json": {"valid": ['{"a":1}', "[1,2]", '"s"', "null"], "invalid": ['{"a":', "[1,"]},
+    "from_yaml": {"valid": ["a: 1", "- x\n- y", "s", "# c\nk: v\n"], "invalid": ["a: [", "{a"]},
+    "from_props": {"valid": ["a = 1", "a.b = x\na.c = y\n", "k:v"], "invalid": ["a = \\u00g1"]},
+    "from_csv": {"valid": ["a,b\n1,2\n", "h\nx\n", "a,b\n"], "invalid": ['a,b\n"x,2\n', "a,b\n1\n"]},
+    "from_tsv": {"valid": ["a\tb\n1\t2\n", "h\nx\n"], "invalid": ['a\tb\n"x\t2\n']},
+    "from_xml": {"valid": ["<a>1</a>", "<r><b>1</b><c>2</c><b>3</b></r>", '<a x="1"/>'], "invalid": ["<a>", "x<a/>"]},
+}
+REUSE_BLANK = ["", " ", "\n", "  \n"]
+REUSE_FILES = {
+    "base64": ["aGk=", "YQ"], "uri": ["a+b", "%41"], "json": ['{"a":1}\n', "[1]\n"], "yaml": ["a: 1\n", "- x\n"],
+    "props": ["a = 1\n", "b.c = x\n"], "csv": ["a,b\n1,2\n", "h\nx\n"], "tsv": ["a\tb\n1\t2\n", "h\nx\n"],
+    "xml": ["<a>1</a>\n", "<r><b>1</b><c>2</c><b>3</b></r>\n"], "toml": ["a = 1\n", "[t]\nb = 2\n"], "lua": ["return {a = 1}\n", 'return {"x", "y"}\n'],
+}
+
+
+def reuse_op_case(op, elems):
+    """(good, detail): [.[] | op] on the elements against op on each element alone"""
+    reqs = [{"op": "c14_op", "expr": op, "node": S(e)} for e in elems] + [{"op": "c14_op", "expr": "[.[] | %s]" % op, "node": Q([S(e) for e in elems])}]
+    resp = vlib.yqh_batch(reqs)
+    return reuse_op_judge(resp[:-1], resp[-1])
+
+
+def reuse_op_judge(alone, comb):
+    for r in alone + [comb]:
+        if r is None or r.get("panic") or r.get("timeout") or r.get("crash") or r.get("harness_error"):
+            return False, "crash: %r" % (r,)
+    if all(ok(r) for r in alone):
+        want = [n for r in alone for n in r["nodes"]]
+        if not (ok(comb) and len(comb["nodes"]) == 1 and comb["nodes"][0]["k"] == "q"):
+            return False, "every element decodes alone, the combined expression fails: %r" % (comb.get("err"),)
+        if comb["nodes"][0]["c"] != want:
+            return False, "combined result differs from the results of the elements alone"
+        return True, ""
+    if ok(comb):
+        return False, "an element fails alone but the combined expression succeeds"
+    return True, ""
+
+
+def reuse_files_case(fmt, texts, workdir):
+    d = tempfile.mkdtemp(prefix="c14f_", dir=workdir)
+    try:
+        names = []
+        for i, t in enumerate(texts):
+            p = os.path.join(d, "f%d.%s" % (i, "txt"))
+            with open(p, "wb") as f:
+                f.write(t.encode())
+            names.append(p)
+        base = ["-p=" + fmt, "-o=json", "-I=0", "."]
+        alone = [vlib.run_yq(base + [n]) for n in names]
+        comb = vlib.run_yq(base + names)
+        if all(a[0] == 0 for a in alone):
+            if comb[0] != 0:
+                return False, "every file decodes alone, the run over all files fails: %s" % comb[2][:200].decode("utf-8", "replace")
+            if comb[1] != b"".join(a[1] for a in alone):
+                return False, "output of the run over all files %r differs from the outputs of the files alone %r" % (comb[1][:200], b"".join(a[1] for a in alone)[:200])
+            return True, ""
+        if comb[0] == 0:
+            return False, "a file fails alone but the run over all files succeeds"
+        return True, ""
+    finally:
+        shutil.rmtree(d, ignore_errors=True)
+
+
+@section
+def sec_reuse(cx):
+    chk, rng = cx.chk, cx.rng
+    from concurrent.futures import ThreadPoolExecutor
+    # ---------- in-expression decoders over several elements ----------
+    cases = []
+    for op, pool in REUSE_OPS.items():
+        v = pool["valid"]
+        fixed = [["", v[0]], [v[0], "", v[1 % len(v)]], [" ", v[0]], ["\n", v[0], ""], [v[0], v[1 % len(v)]], [v[0], v[0]], [pool["invalid"][0], v[0]], [v[0], pool["invalid"][0], v[0]], ["", ""]]
+        for seq in fixed:
+            cases.append((op, seq))
+        for _ in range(cx.n(6, 80)):
+            seq = [rng.choice(v + v + REUSE_BLANK + pool["invalid"][:1]) for _ in range(rng.randrange(2, 5))]
+            cases.append((op, seq))
+    reqs, index = [], []
+    for op, seq in cases:
+        start = len(reqs)
+        reqs += [{"op": "c14_op", "expr": op, "node": S(e)} for e in seq]
+        reqs.append({"op": "c14_op", "expr": "[.[] | %s]" % op, "node": Q([S(e) for e in seq])})
+        index.append((start, len(seq)))
+    resp = vlib.yqh_parallel(reqs)
+    for (op, seq), (start, n) in zip(cases, index):
+        good, why = reuse_op_judge(resp[start:start + n], resp[start + n])
+        chk.count(("reuseop", op, json.dumps(seq)), nontrivial=any(e.strip() == "" for e in seq) or len(set(seq)) > 1)
+        if not good:
+            cx.viol("reuseop", {"expr_op": op, "elems": seq, "why": why}, "[.[] | %s] does not decode each element as %s decodes it alone: %s" % (op, op, why))
+    # ---------- several files in one run of the real binary ----------
+    jobs = []
+    for fmt, v in REUSE_FILES.items():
+        for seq in ([ "", v[0]], [v[0], "", v[1]], [v[0], v[1]], [v[1], v[0], v[0]], ["\n", v[0]], ["", "", v[1]]):
+            jobs.append((fmt, seq))
+    with ThreadPoolExecutor(vlib.NCPU) as ex:
+        results = list(ex.map(lambda j: reuse_files_case(j[0], j[1], chk.workdir), jobs))
+    for (fmt, seq), (good, why) in zip(jobs, results):
+        chk.count(("reusefiles", fmt, json.dumps(seq)), nontrivial=True)
+        if not good:
+            cx.viol("reusefiles", {"fmt": fmt, "files": seq, "why": why}, "yq -p=%s over several files does not decode each file as it does alone: %s" % (fmt, why))
+    cx.dist["reuse"] = {"expression_sequences": len(cases), "multi_file_runs": len(jobs)}
+
+
+def _rp_reuseop(rp):
+    return reuse_op_case(rp["expr_op"], rp["elems"])[0]
+
+
+def _rp_reusefiles(rp):
+    os.makedirs(os.path.join(vlib.WORK, "C14"), exist_ok=True)
+    return reuse_files_case(rp["fmt"], rp["files"], os.path.join(vlib.WORK, "C14"))[0]
+
+
+# --------------------------------------------------------------------------
 # replay / run
 # --------------------------------------------------------------------------
 def replay(rp):
@@ -2096,7 +2230,7 @@ def _rp_cli(rp):
 
 REPLAYERS = {"csvenc": _rp_csvenc, "csvdec": _rp_csvdec, "csvobj": _rp_csvobj, "csvop": _rp_csvop, "propsenc": _rp_propsenc, "propsdec": _rp_propsdec,
              "xmlenc": _rp_xmlenc, "xmldec": _rp_xmldec, "xmlop": _rp_xmlop, "tomldec": _rp_tomldec, "tomlenc": _rp_tomlenc, "luaenc": _rp_luaenc,
-             "luadec": _rp_luadec, "pairop": _rp_pairop, "cli": _rp_cli}
+             "luadec": _rp_luadec, "pairop": _rp_pairop, "cli": _rp_cli, "reuseop": _rp_reuseop, "reusefiles": _rp_reusefiles}
 
 
 def run(chk):
